@@ -612,6 +612,18 @@ func (d *driver) runOCI(key string, scns []*scenario) ([]*blockOut, error) {
 			b.Meta["audit_error"] = aerr.Error()
 		}
 		ex.entries = entries
+		// the entry order in the vocabulary of the model ("#x" = hex digest of node x), for the runner
+		order := []string{}
+		for _, en := range entries {
+			nm := en.name
+			if m := reBlobPath.FindStringSubmatch(nm); m != nil {
+				if n, ok := g.byDig[m[1]+":"+m[2]]; ok {
+					nm = "blobs/" + m[1] + "/#" + n
+				}
+			}
+			order = append(order, nm)
+		}
+		b.Meta["order"] = order
 		b.Lines = append(b.Lines, tev)
 		xev := vtrace.Event{"ev": "export", "ok": b2i(xerr == nil), "skip": 0}
 		if xerr != nil {
